@@ -84,9 +84,23 @@ def table_edges(facts, roles):
     """execute-like bodies (containing an indirect call) may invoke every function of the tables."""
     extra = defaultdict(set)
     allfns = {e.fn_key for t in roles.tables for e in t.entries}
+
+    def norm(sig):
+        sig = re.sub(r"for<[^>]*>\s*", "", sig or "")
+        sig = re.sub(r"'\w+\s*", "", sig)
+        sig = re.sub(r"\s*\{.*\}$", "", sig)
+        return re.sub(r"\s+", "", sig)
+    sigs = {k: norm(facts.items.get(k, {}).get("sig")) for k in allfns}
     for b in facts.fns():
-        if any(callee_of(t) is None for _, t in b.calls()):
-            extra[b.key] |= allfns
+        for _, t in b.calls():
+            if callee_of(t) is not None:
+                continue
+            fty = norm(t.get("fty") or "")
+            if fty.startswith("fn("):
+                # a call through a fn pointer can only reach table functions of that very pointer type
+                extra[b.key] |= {k for k in allfns if not sigs[k] or sigs[k] == fty}
+            else:
+                extra[b.key] |= allfns
     return extra
 
 
